@@ -19,9 +19,9 @@ META = {
                     'instances a singular matrix is a definedness obligation (no LinAlgError fork)',
                     'for D >= 3 the fact a^H Phi^-1 a != 0 for positive definite Phi and a != 0 is a precondition '
                     '(inverse of a positive definite matrix is positive definite); for D = 2 it is proved',
-                    'optimality is proved through the certificate v^H Phi v - w^H Phi w = (v-w)^H Phi (v-w) >= 0: the '
-                    'two algebraic lemmas are discharged over abstract symbols, their instantiation with the code '
-                    'output (which satisfies Phi w c = a, w^H a = 1 by the discharged obligations) is by construction'],
+                    'optimality for every dimension: lean/Mvdr.lean (mvdr_optimal, machine-checked every run) from the two facts '
+                    'discharged per shape on the real code (Phi w c = a, w^H a = 1); instantiating the lemma with the code output '
+                    'is by construction'],
 }
 BF = 'pb_bss.extraction.beamformer:'
 TINY = float(np.finfo(np.float64).tiny)
@@ -140,35 +140,11 @@ def mvdr_instance(D, F, K=None, single=False):
             for i in range(D):
                 yield 'normal-equation[%s,%d]' % (li, i), sp.eq(Pw[i] * cnum, a[i] * dt)
             yield 'minimum-value[%s]' % (li,), sp.eq(quad(sp, w, Pn, w) * cnum, dt)
-        if sp.symbolic:
-            yield from optimality_lemmas(sp, D)
+        # optimality for every dimension follows from `distortionless` + `normal-equation` by the machine-checked lemma
+        # lean/Mvdr.lean (mvdr_optimal), see the lemma instance of this module
 
     name = 'D%d-%s' % (D, 'single' if single else ('F%d' % F if K is None else 'K%dF%d' % (K, F)))
     return Instance('C11', BF + 'get_mvdr_vector', name, make, call, ensures, patches=NOFORK, timeout=40.0, weight=D ** 3)
-
-
-def optimality_lemmas(sp, D):
-    """Abstract lemmas (fresh symbols, no code): with Phi Hermitian, Phi w c = a (c real), w^H a = 1, v^H a = 1:
-         v^H Phi v - w^H Phi w = (v-w)^H Phi (v-w);   and   Sylvester minors > 0  =>  u^H Phi u >= 0."""
-    c = S.ctx()
-
-    def fc(tag):
-        return S.C(S.R(c.new_var(tag + '_re')), S.R(c.new_var(tag + '_im')))
-    P = [[None] * D for _ in range(D)]
-    for i in range(D):
-        P[i][i] = S.C(S.R(c.new_var('lP%d%d' % (i, i))), 0.0)
-        for j in range(i + 1, D):
-            P[i][j] = fc('lP%d%d' % (i, j))
-            P[j][i] = P[i][j].conjugate()
-    w, v, a = [fc('lw%d' % i) for i in range(D)], [fc('lv%d' % i) for i in range(D)], [fc('la%d' % i) for i in range(D)]
-    cc = S.R(c.new_var('lc'))
-    Pw = matvec(sp, P, w)
-    prem = [sp.eq(Pw[i] * cc, a[i]) for i in range(D)] + [sp.ne(cc, 0.0), sp.eq(inner(sp, w, a), 1.0), sp.eq(inner(sp, v, a), 1.0)]
-    u = [v[i] - w[i] for i in range(D)]
-    goal = sp.eq(quad(sp, v, P, v) - quad(sp, w, P, w), quad(sp, u, P, u))
-    yield 'optimality-lemma-decomposition[D=%d]' % D, sp.implies(sp.and_(*prem), goal)
-    minors = [sp.gt(sp.re(det([[P[i][j] for j in range(n)] for i in range(n)])), 0.0) for n in range(1, D + 1)]
-    yield 'optimality-lemma-sylvester-psd[D=%d]' % D, sp.implies(sp.and_(*minors), sp.ge(sp.re(quad(sp, u, P, u)), 0.0))
 
 
 # ----------------------------------------------------------------------------- LCMV
